@@ -24,9 +24,9 @@ func (C10) Plan(tier string) core.Plan {
 
 func (C10) Info() core.Info {
 	return core.Info{
-		Rule:        "general worlds (planned and random, all label features, cycles, generators) in which a Convert(T, args) and a Call of a simulator-made identity target func(T) T with the same options are run in one history (both orders), T concrete or interface, under the same seeded schedule; some providers return a nil struct pointer on every execution so that the converted value is the zero value of T. Oracle: on worlds in the stable classes of C05 (outcome independent of iteration order) Convert returns (v,nil) iff the Call succeeds; always: a returned value is assignable to T, its provenance PERMIT-matches a type-only parameter (T,\"\"), on failure the value is nil and the error non-nil; when the target's parameter resolution is unique (no converter involved, one candidate supply) both deliver the same token. One history in 25 converts to the type `error` (the simulated target is then literally func(error) error and hands back what it receives). A twelfth of the histories convert to a pool type and then, from disjoint options, to its twin: a distinct Go type that prints the same; target types include a pointer to an interface type. Non-trivial: >=1 converter; distinct = distinct (world shape, event-log hash)",
+		Rule:        "general worlds (planned and random, all label features, cycles, generators) in which a Convert(T, args) and a Call of a simulator-made identity target func(T) T with the same options are run in one history (both orders), T concrete or interface, under the same seeded schedule; some providers return a nil struct pointer on every execution so that the converted value is the zero value of T. Oracle: on worlds in the stable classes of C05 (outcome independent of iteration order) Convert returns (v,nil) iff the Call succeeds; always: a returned value is assignable to T, its provenance PERMIT-matches a type-only parameter (T,\"\"), on failure the value is nil and the error non-nil; when the target's parameter resolution is unique (no converter involved, one candidate supply) both deliver the same token. One history in 25 converts to the type `error` (the simulated target is then literally func(error) error and hands back what it receives). A twelfth of the histories convert to a pool type and then, from disjoint options, to its twin: a distinct Go type that prints the same; target types include a pointer to an interface type and marker struct types resolved field by field. Non-trivial: >=1 converter; distinct = distinct (world shape, event-log hash)",
 		Assumptions: []string{"equivalence is asserted only on C05-stable worlds so that a legitimate difference in how many S1 choices the two entry points consume cannot be mistaken for disagreement"},
-		Probes:      []string{"c10_pairs", "c10_both_ok", "c10_both_fail", "c10_iface_target", "c10_value_checked", "c10_zero_value_converted", "c10_twin_type_pairs", "c10_generator_error_both", "c10_error_typed_target", "s1_nonidentity_perms"},
+		Probes:      []string{"c10_pairs", "c10_struct_target", "c10_both_ok", "c10_both_fail", "c10_iface_target", "c10_value_checked", "c10_zero_value_converted", "c10_twin_type_pairs", "c10_generator_error_both", "c10_error_typed_target", "s1_nonidentity_perms"},
 		Real:        realComponents,
 		Simulated:   simComponents,
 	}
@@ -92,9 +92,69 @@ func genErrorHistory(r *simrt.RNG) world.World {
 	return w
 }
 
+// genStructTarget: T is a marker struct type (it embeds argmapper.Struct): func(T) T
+// resolves its fields one by one, and so must Convert(T).
+func genStructTarget(r *simrt.RNG) world.World {
+	perm := make([]int, world.NumStruct)
+	for i := range perm {
+		perm[i] = i
+	}
+	for i := len(perm) - 1; i > 0; i-- {
+		j := r.Intn(i + 1)
+		perm[i], perm[j] = perm[j], perm[i]
+	}
+	var w world.World
+	t := world.Party{InForm: world.FormStruct, OutForm: world.FormStruct}
+	if r.Chance(1, 3) {
+		t.InForm = world.FormPtrStruct
+		t.OutForm = world.FormPtrStruct
+	}
+	n := 1 + r.Intn(3)
+	var args []int
+	for i := 0; i < n; i++ {
+		l := world.Label{Type: perm[i]}
+		if r.Bool() {
+			l.Name = world.Names[i]
+		}
+		t.In = append(t.In, world.Slot{Label: l})
+	}
+	t.Out = append([]world.Slot{}, t.In...)
+	w.Parties = append(w.Parties, t)
+	missing := r.Chance(1, 4)
+	for i, s := range t.In {
+		if missing && i == 0 {
+			continue // one field cannot be had: both entry points must fail
+		}
+		if r.Bool() {
+			a := world.ArgSpec{Kind: world.ArgTyped, Label: s.Label}
+			if s.Name != "" {
+				a.Kind, a.Spell = world.ArgNamed, s.Name
+			}
+			w.Args = append(w.Args, a)
+			args = append(args, len(w.Args)-1)
+			continue
+		}
+		src := perm[6+i]
+		w.Parties = append(w.Parties, world.Party{InForm: world.FormPositional, OutForm: world.FormPositional, In: []world.Slot{{Label: world.Label{Type: src}}}, Out: []world.Slot{{Label: world.Label{Type: s.Type}}}, HasErr: r.Bool()})
+		w.Args = append(w.Args, world.ArgSpec{Kind: world.ArgConv, Party: len(w.Parties) - 1}, world.ArgSpec{Kind: world.ArgTyped, Label: world.Label{Type: src}})
+		args = append(args, len(w.Args)-2, len(w.Args)-1)
+	}
+	call := world.Op{Kind: world.OpCall, Target: 0, Args: args}
+	conv := world.Op{Kind: world.OpConvert, Target: 0, Type: -1, Args: args}
+	if r.Bool() {
+		w.Ops = []world.Op{call, conv}
+	} else {
+		w.Ops = []world.Op{conv, call}
+	}
+	return w
+}
+
 func (C10) Gen(r *simrt.RNG, tier string) core.Case {
 	if r.Chance(1, 12) {
 		return RCase{W: genTwinHistory(r)}
+	}
+	if r.Chance(1, 20) {
+		return RCase{W: genStructTarget(r)}
 	}
 	if r.Chance(1, 25) {
 		return RCase{W: genErrorHistory(r)}
@@ -178,7 +238,17 @@ func c10Pairs(w world.World) ([][2]int, bool) {
 			return nil, false
 		}
 		t := w.Parties[call.Target]
-		if len(t.In) != 1 || t.In[0].Name != "" || t.In[0].Sub != "" || t.In[0].Type != conv.Type || len(t.Defaults) != 0 || t.InForm != world.FormPositional {
+		if conv.Type == -1 {
+			// struct target: the identity function's parameters are the fields
+			if conv.Target != call.Target || len(t.Defaults) != 0 || len(t.Out) != len(t.In) {
+				return nil, false
+			}
+			for k := range t.In {
+				if t.In[k].Label != t.Out[k].Label || t.In[k].Sub != "" || world.IsIface(t.In[k].Type) {
+					return nil, false
+				}
+			}
+		} else if len(t.In) != 1 || t.In[0].Name != "" || t.In[0].Sub != "" || t.In[0].Type != conv.Type || len(t.Defaults) != 0 || t.InForm != world.FormPositional {
 			return nil, false
 		}
 		if len(call.Args) != len(conv.Args) {
@@ -301,6 +371,37 @@ func (C10) Run(c core.Case, ctx *core.Ctx) []core.Violation {
 				ctx.St.Inc("c10_twin_type_pairs")
 			}
 			cr, vr := rt.Results[ci], rt.Results[vi]
+			if ty == -1 {
+				// struct target: agreement of the two entry points, and every field of the
+				// returned struct carries a value the matching parameter may be given
+				ctx.St.Inc("c10_struct_target")
+				tp := w.Parties[w.Ops[ci].Target]
+				switch {
+				case !cr.Returned || !vr.Returned:
+					if cr.Returned && cr.Err == nil {
+						add("convert-disagrees-with-call", fmt.Sprintf("schedule %d: Call of func(S) S succeeds, Convert(S) did not return: %s", k, trunc(vr.PanicDetail)))
+					} else {
+						ctx.St.Inc("cross_c06_panic_or_divergence")
+					}
+				case stable && (cr.Err == nil) != (vr.Err == nil):
+					add("convert-disagrees-with-call", fmt.Sprintf("schedule %d: struct target %s: Call -> err=%v, Convert -> err=%v", k, tp, errStr(cr.Err), errStr(vr.Err)))
+				case vr.Err == nil:
+					if vr.ConvNil || len(vr.Outs) != len(tp.In) {
+						add("convert-returned-nil-value-without-error", fmt.Sprintf("Convert(S) returned %d field values for %d fields", len(vr.Outs), len(tp.In)))
+						break
+					}
+					for fi, id := range vr.Outs {
+						if id == 0 || id >= uint64(len(rt.Tokens)) {
+							add("convert-invented-value", fmt.Sprintf("field %s of the converted struct holds token %d", tp.In[fi].Label, id))
+						} else if tk := rt.Tokens[id]; !model.Permit(tk.Label, tp.In[fi].Label) {
+							add("convert-mislabelled-value", fmt.Sprintf("field %s of the converted struct holds a value labelled %s", tp.In[fi].Label, tk.Label))
+						}
+					}
+				case !vr.ConvNil:
+					add("convert-returned-value-with-error", "Convert returned a non-nil value together with an error")
+				}
+				continue
+			}
 			if cr.Returned && cr.Err == nil && !vr.Returned {
 				add("convert-disagrees-with-call", fmt.Sprintf("schedule %d: Call of func(%s) succeeds, Convert did not return: %s", k, world.TypeName(ty), trunc(vr.PanicDetail)))
 				continue
